@@ -804,6 +804,9 @@ class Parser:
             tp, _ = self._declarations.get(key, (None, None))
         #
         if tp is None:
+            if explicit_name == '__dotdotdot__' and kind != 'enum':
+                raise CDefError("%ss cannot be declared with ..." %
+                                kind.capitalize())
             if kind == 'struct':
                 tp = model.StructType(explicit_name, None, None, None)
             elif kind == 'union':
